@@ -179,6 +179,8 @@ typedef struct {
 } vargs;
 extern vargs VA;
 void vw_init(int argc, char **argv);
+void vw_mute_stdout(void);                        /* library printf output -> /dev/null until vw_finish */
+void vw_unmute_stdout(void);
 void vw_inflight(const char *fmt, ...) __attribute__((format(printf, 1, 2)));
 void vw_case(uint64_t caseno);                    /* marks the start of a case */
 void vw_nontrivial(uint64_t hash);                /* counts a non-trivial case, remembers its hash */
